@@ -221,6 +221,10 @@ func (m *Machine) visitInstr(fr *frame, instr ssa.Instruction) continuation {
 		m.chanSend(fr.get(instr.Chan).(*ChanV), fr.get(instr.X))
 
 	case *ssa.Store:
+		if sp, ok := fr.get(instr.Addr).(*symPtr); ok {
+			m.storeSym(sp, fr.get(instr.Val))
+			break
+		}
 		addr := fr.get(instr.Addr).(*Value)
 		if addr == nil {
 			m.rtPanic("invalid memory address or nil pointer dereference")
